@@ -55,7 +55,8 @@ FAULT_PROBES = {"user_exception_in_body": "session_failed_user_exc", "encoder_ex
 PROBES = ["reader_blocked_by_writer", "writer_blocked", "three_or_more_polling", "timeout_fired", "stale_handle_rescan",
           "session_failed_user_exc", "session_failed_encoder_exc", "session_failed_dup_at_put",
           "session_failed_io_error", "queue_nonempty_after_failed_session", "same_path_two_spellings", "two_libraries",
-          "pickled_handle", "create_race", "reader_saw_maybe_record", "molecule_library_payload", "failed_put_caught_session_continues"]
+          "pickled_handle", "create_race", "reader_saw_maybe_record", "molecule_library_payload", "failed_put_caught_session_continues",
+          "used_handle_shipped_to_another_process", "shipped_handle_carried_a_write_queue"]
 
 SPELLINGS = ["{n}", "./{n}", "sub/../{n}", "{cwd}/{n}", "ln/{n}", "lnk_{n}", "ln/ln/{n}"]
 
@@ -165,9 +166,34 @@ def gen_plan(r, tier, index):
             script.append(sess)
         procs.append({"pid": p, "handles": handles, "script": script})
 
+    # a USED handle travels: process A pickles a handle it has already run sessions on (cached index, end offset, possibly a
+    # write queue left by a failed session) and process B carries on with the copy - what joblib does with a library
+    # object that was used before it is passed to the workers
+    ship_dirty = None
+    if nproc >= 2 and not create_race and r.random() < 0.2:
+        a, b = r.sample(range(nproc), 2)
+        ha = r.randrange(len(procs[a]["handles"]))
+        cands = [i for i, hb in enumerate(procs[b]["handles"]) if hb["lib"] == procs[a]["handles"][ha]["lib"]
+                 and hb["readonly"] == procs[a]["handles"][ha]["readonly"]]
+        if cands:
+            procs[a]["ships"] = [{"after": r.randrange(len(procs[a]["script"])), "h": ha, "slot": 0}]
+            procs[b]["adopts"] = [{"h": r.choice(cands), "slot": 0}]
+            if r.random() < 0.4 and not procs[a]["handles"][ha]["readonly"]:
+                # ... and make it likely that the travelling handle carries a write queue: a deferring buffer and an exit
+                # flush that fails after the first of several queued items
+                ship_dirty = (a, procs[a]["ships"][0]["after"])
+                procs[a]["handles"][ha]["coll_bufsize"] = 1 << 20
+                sess = procs[a]["script"][ship_dirty[1]]
+                sess["h"], sess["kind"], sess["catch"] = ha, "w", False
+                sess["ops"] = [o for o in sess["ops"] if o["op"] in ("put", "stall")]
+                while sum(o["op"] == "put" for o in sess["ops"]) < 3:
+                    tag += 1
+                    sess["ops"].append({"op": "put", "k": f"p{procs[a]['pid']}s{ship_dirty[1]}k{tag}", "v": [tag, r.choice([1, 10, 60])]})
     faults = []
     wsessions = [(pi, si) for pi, p in enumerate(procs) for si, s in enumerate(p["script"]) if s["kind"] == "w"]
     anysessions = [(pi, si) for pi, p in enumerate(procs) for si, s in enumerate(p["script"])]
+    if ship_dirty is not None:
+        faults.append({"kind": "eio", "pid": procs[ship_dirty[0]]["pid"], "op": "write", "nth": 1, "phase": f"s{ship_dirty[1]}:exit", "arg": 1})
     for _ in range(fault_budget):
         kind = r.choice(["user_exc", "user_exc", "encoder_exc", "dup_in_session", "io", "io", "io", "reader_exc"])
         if kind == "reader_exc":
@@ -227,7 +253,7 @@ def _mk(path, readonly, cb):
 
 class _Sess:
     __slots__ = ("pid", "idx", "lib", "kind", "hkey", "invoke", "ret", "b0", "b1", "outcome", "exc", "puts", "put_results",
-                 "reads", "listings", "fault", "queue_left", "leak", "timeout", "cb", "caught")
+                 "reads", "listings", "fault", "queue_left", "leak", "timeout", "cb", "caught", "inherited")
 
     def __init__(self):
         self.invoke = self.ret = self.b0 = self.b1 = None
@@ -241,6 +267,7 @@ class _Sess:
         self.queue_left = 0
         self.leak = None
         self.caught = 0
+        self.inherited = False
 
     def good_puts(self):
         """puts that returned without raising (in an ok session these are the committed ones)"""
@@ -319,11 +346,15 @@ def _run_plan(plan, trace=False):
                 polling_max[0] = n
         sched.on_step = on_step
 
+        mailbox = {}
+
         def make_proc(p):
             pid = p["pid"]
 
             def main():
                 handles = []
+                hcb = [h["coll_bufsize"] for h in p["handles"]]
+                inherited = set()
                 for h in p["handles"]:
                     spelled = SPELLINGS[h["spelling"]].format(n=_libname(h["lib"]), cwd=kern.root)
                     if h["pickled"]:
@@ -332,13 +363,24 @@ def _run_plan(plan, trace=False):
                         c = _mk(K.SimPath(spelled), h["readonly"], h["coll_bufsize"])
                     handles.append(c)
                 for si, sp in enumerate(p["script"]):
+                    for ad in p.get("adopts", ()):
+                        got = mailbox.pop(ad["slot"], None)
+                        if got is not None:
+                            blob, cb = got
+                            handles[ad["h"]] = pickle.loads(blob)
+                            hcb[ad["h"]] = cb
+                            res.stats["probe:used_handle_shipped_to_another_process"] += 1
+                            if len(handles[ad["h"]]._backend._write_queue):
+                                inherited.add(ad["h"])
+                                res.stats["probe:shipped_handle_carried_a_write_queue"] += 1
                     c = handles[sp["h"]]
                     S = _Sess()
+                    S.inherited = sp["h"] in inherited
                     S.pid, S.idx, S.kind = pid, si, sp["kind"]
                     S.lib = p["handles"][sp["h"]]["lib"]
                     S.hkey = (pid, sp["h"])
                     S.timeout = sp["timeout"]
-                    S.cb = p["handles"][sp["h"]]["coll_bufsize"]
+                    S.cb = hcb[sp["h"]]
                     sessions.append(S)
                     if sp["think"]:
                         kern.sleep(sp["think"])
@@ -376,6 +418,9 @@ def _run_plan(plan, trace=False):
                     if lk or fds:
                         S.leak = ([(kern.canon(a), b) for a, b in lk], fds)
                     S.ret = mark("return", S, S.outcome)
+                    for sh in p.get("ships", ()):
+                        if sh["after"] == si:
+                            mailbox[sh["slot"]] = (pickle.dumps(handles[sh["h"]]), hcb[sh["h"]])
             return main
 
         def _body(c, sp, S):
@@ -658,7 +703,7 @@ def _oracles(plan, kern, sched, sessions, marks, res, limit_hit):
             # writer effects
             if S.kind == "w":
                 cls = _fail_class(S)
-                explained = S.fault is not None or S.hkey in dirty_handles
+                explained = S.fault is not None or S.hkey in dirty_handles or S.inherited
                 seen_in_sess = set()
                 for (k, v) in S.puts:
                     dup = k in committed or k in maybe or k in seen_in_sess
@@ -801,6 +846,12 @@ def shrink_candidates(plan):
     for i in range(len(plan["faults"])):
         p = copy.deepcopy(plan)
         del p["faults"][i]
+        yield p
+    if any("ships" in pr or "adopts" in pr for pr in procs):
+        p = copy.deepcopy(plan)
+        for pr in p["procs"]:
+            pr.pop("ships", None)
+            pr.pop("adopts", None)
         yield p
     if plan["sched"]["strategy"].get("kind") != "lowest":
         p = copy.deepcopy(plan)
